@@ -16,7 +16,11 @@ Correspondence / oracles (harness/soln.cpp links the real libompl built from /re
      recomputed cost never better than the admissible bound, optimized flag <->
      isSatisfied(stored cost), top/best cost monotone across continued solves, order without inversion,
      accessors mirror the top solution.
-Spec oracle (Python, on the implementation's outputs only) for all three parts.
+ (C, round 10) input classes: every boolean planner parameter flipped (names read from the real ParamSets), numeric parameters,
+     random mixes; re-use histories o/O (another objective), r/R (reversed query), d (planner re-created from its PlannerData);
+     lattice samples (grid=<n>: systematic distance ties).
+ (D) geometric::RRTstar in lock-step with the Lean model (default and classic choose-parent loop), bit for bit.
+Spec oracle (Python, on the implementation's outputs only) for all parts.
 """
 import concurrent.futures
 import math
@@ -775,6 +779,13 @@ CFG_VALUES = {
 }
 
 
+def cfg_requires(kv):
+    """documented preconditions between parameters: RRTstar::setOrderedSampling "requires either informed sampling or rejection
+    sampling" (the setter only logs an error; solve() then dereferences a null sampler in OrderedInfSampler - a crash outside C04,
+    see notes)."""
+    return kv + ",informed_sampling=1" if kv == "ordered_sampling=1" else kv
+
+
 def load_params(ck, hbin):
     """planner -> [(name, default, [non-default values])] read from the REAL planners' ParamSets (so a parameter added to a
     planner is driven without touching this file: booleans are flipped, known numeric ones take the hand-picked values)."""
@@ -861,8 +872,8 @@ def make_jobs(ck, rng, params=None):
                 # the anytime pattern of tests/geometric/2d/*_optimize: many short slices of
                 # `clearSolutionPaths(); solve()`, two goal states, the better one behind a narrow window (env 6),
                 # an objective without admissible heuristic (unit state-cost integral: nothing is pruned)
-                job(planner, "sci", 0, "def", 6, 2, r.range(1, 10 ** 6), 500, 30 if ck.tier == "quick" else 80, f2bits(0.01), 1)
-                job(planner, "len", 0, "def", 6, 2, r.range(1, 10 ** 6), 500, 25, f2bits(0.01), 1)
+                job(planner, "sci", 0, "def", 6, 2, r.range(1, 10 ** 6), 500, 26 if ck.tier == "quick" else 80, f2bits(0.01), 1)
+                job(planner, "len", 0, "def", 6, 2, r.range(1, 10 ** 6), 500, 22 if ck.tier == "quick" else 25, f2bits(0.01), 1)
         for planner, evals in EXTRA_PLANNERS.items():
             r = rng.fork("xjob-%s-%d" % (planner, rep))
             job(planner, "len", 0, "def", 7, 2, r.range(1, 10 ** 6), evals, 3, g_small, hist="cs")
@@ -883,16 +894,18 @@ def make_jobs(ck, rng, params=None):
             for name, default, vals, _b in bools:
                 obj = "len" if not general or r.chance(2, 3) else r.choice(["sci", "work", "multi"])
                 job(planner, obj, r.range(1, 2), r.choice(["def", "def", "inf"]), r.choice([0, 1, 3, 4]), 2, r.range(1, 10 ** 6), ev, 2, g_small,
-                    hist=r.choice(["c", "c", "s"]), cfg="%s=%s" % (name, vals[0]), tag="cfg-bool")
+                    hist=r.choice(["c", "c", "s"]), cfg=cfg_requires("%s=%s" % (name, vals[0])), tag="cfg-bool")
             # (b) numeric parameters one at a time (quick: two of them per planner), (c) a random mix of everything
             pick = list(nums)
             r.shuffle(pick)
-            for name, default, vals, _b in (pick[:2] if ck.tier == "quick" else pick):
+            for name, default, vals, _b in (pick[:1] if ck.tier == "quick" else pick):
                 job(planner, "len", 0, "def", r.choice([0, 1, 3, 4]), 2, r.range(1, 10 ** 6), ev, 2, g_small, hist="c",
                     cfg="%s=%s" % (name, r.choice(vals)), tag="cfg-num")
             for _ in range(1 if ck.tier == "quick" else 3):
                 mix = ["%s=%s" % (n, r.choice(v)) for n, _d, v, b in ps if r.chance(1, 3 if b else 4)]
                 if mix:
+                    mix = [cfg_requires(kv) if kv == "ordered_sampling=1" and "informed_sampling=1" not in mix and "sample_rejection=1" not in mix else kv
+                           for kv in mix]
                     obj = "len" if not general or r.chance(1, 2) else r.choice(["sci", "work", "multi", "minimax"])
                     job(planner, obj, r.range(1, 2), "def", r.choice([0, 1, 3, 4, 5, 7]), 2, r.range(1, 10 ** 6), ev, 2, g_small, hist=r.choice(["c", "k", "p"]),
                         cfg=",".join(mix), tag="cfg-mix")
@@ -1555,7 +1568,13 @@ MANIFEST = {
             "trees, and 28 planners (the 20 optimizing ones + PRM, LazyPRM, BiTRRT, LazyRRT, SPARS, SPARStwo, QRRTStar, QMPStar) through the "
             "stored-cost / ranking oracle with asymmetric objectives, Dubins, two goals, two starts and clear()/continue histories; the "
             "RRT* lock-step recomputes every checkMotion answer in the model (DiscreteMotionValidator on box worlds); bit-for-bit lock-step of the whole tree against the real planner (recording "
-            "sampler / validator, twin RNG), incl. scripted collinear dyadic inputs with exactly cost-equal candidates.",
+            "sampler / validator, twin RNG), incl. scripted collinear dyadic inputs with exactly cost-equal candidates. Round 10: the "
+            "classic choose-parent loop (setDelayCC(false)) is in the model and in the lock-step (every third run); the tree / cost / "
+            "truthfulness theorems hold for it on every history that never raises the ghost staleInc (all histories with the default "
+            "loop), and rrtstar_classic_stale_inc_fails is the kernel-checked witness that the loop as coded is not truthful otherwise "
+            "(finding F340, reproduced on the real planner with lattice samples); part C drives every boolean parameter of every "
+            "planner's ParamSet off its default (read from the real planners), numeric parameters, random mixes, re-use histories (new "
+            "problem definition with another objective / reversed query, planner re-created from its PlannerData) and lattice samples.",
     "note": "Trusted: Lean kernel, the three standard axioms, the hand-written model outside the scripts the correspondence explored, "
             "the harness, the Python oracle. Part C is sampled (planners x objectives x environments x seeds listed in the evidence); "
             "mixed objective/no-objective solution sets are the recorded finding F11; IEEE rounding is executed, not verified.",
